@@ -15,13 +15,20 @@ same document except for the timestamp line.
 A separate small stream has strings in which a high surrogate is immediately followed by a low
 surrogate: `json.loads(json.dumps(s))` joins them into one astral code point (Python's json behaviour,
 theorem `CL.C08.surrogate_pair_not_preserved`); there the model must agree with the real code and the
-oracle is the joined string."""
+oracle is the joined string.
+The oracle is also evaluated (a) with the READING process configured differently from the writing one
+(`Configuration.repository` / `.exclude` / `.verbose` set only while the document is read back and re-written),
+(b) as a STATE PROBE: every document is read a second time in the same process after the first result was
+modified (uuid, version, repository, a file added, aggregate called again) - what a read yields is determined
+by the document alone - and written a second time from the same object, and (c) on SIZE LADDERS (10^2..10^4
+files, 10^3..10^6 characters in one string, 10^2..10^5 measurements in one file, nesting depth)."""
 import json
 import os
 import sys
 
 sys.path.insert(0, os.path.dirname(os.path.dirname(os.path.abspath(__file__))))
 import common
+import h4_support as h4
 
 ID = "C08"
 TRUSTED = [
@@ -372,6 +379,101 @@ def gen_spec(rnd, pairs=False, nfiles=None):
     return spec
 
 
+def gen_long(rnd, n, nosep=False):
+    l = break_pairs([gen_cp(rnd) for _ in range(n)])
+    return [c for c in l if c != 0x2F] if nosep else l
+
+
+def ladder_specs(ctx):
+    """-> [(label, spec)]: one size dimension pushed up a geometric ladder, the others small"""
+    rnd = ctx.rng("ladder")
+    out = []
+
+    def base(files, **kw):
+        s = {"root": cps("/r"), "files": files, "repository": (cps("o"), cps("n"), cps("b"), None) if rnd.random() < 0.5 else None,
+             "version": "default", "uuid": None, "timestamp": None}
+        s.update(kw)
+        return s
+
+    def meas(k):
+        return [(cps("f%d" % j) + gen_str(rnd, 3), j * 3 + 1, 0, j * 3 + 2, 1, rnd.choice([1, 15, 16, 30, 31, 60, 61, 100])) for j in range(k)]
+    for n in ctx.pick([100, 1000], [100, 1000, 10 ** 4, 10 ** 5]):
+        segs = [gen_str(rnd, 4, nosep=True) or [0x61] for _ in range(40)]
+        segs = [q if q != [0x2E] else [0x78] for q in segs]
+        files, seen = [], set()
+        for i in range(n):
+            path = break_pairs(rnd.choice(segs) + [0x2F] + rnd.choice(segs) + [0x2F] + cps("f%d" % i) + rnd.choice(segs))
+            if tuple(path) in seen:
+                continue
+            seen.add(tuple(path))
+            files.append((path, cps("%032x" % rnd.getrandbits(128)), cps(rnd.choice(["Python", "C", "Java"])), rnd.randint(0, 500), meas(rnd.choice([0, 1, 2]))))
+        out.append(("%d files" % n, base(files)))
+    fields = ["path", "unit_name", "root", "uuid", "checksum", "language", "owner"]
+    for n, where in [(n, w) for n in ctx.pick([10 ** 3, 10 ** 5], [10 ** 3, 10 ** 4, 10 ** 5, 10 ** 6])
+                     for w in (fields if n <= 10 ** 3 else rnd.sample(fields, ctx.pick(2, 3)))]:
+        long = gen_long(rnd, n, nosep=(where == "path")) or [0x61]
+        f = (cps("d/") + (long if where == "path" else cps("x.py")), long if where == "checksum" else cps("00"),
+             long if where == "language" else cps("C"), 5,
+             [((long if where == "unit_name" else cps("f")), 1, 0, 2, 1, 40)])
+        kw = {}
+        if where == "root":
+            kw["root"] = long
+        if where == "uuid":
+            kw["uuid"] = long
+        s = base([f], **kw)
+        if where == "owner":
+            s["repository"] = (long, cps("n"), cps("b"), None)
+        out.append(("%d characters in the %s" % (n, where), s))
+    for n in ctx.pick([100, 10 ** 4], [100, 10 ** 3, 10 ** 4, 10 ** 5]):
+        out.append(("%d measurements in one file" % n, base([(cps("a/b.py"), cps("00"), cps("Python"), n, meas(n))])))
+    for depth in ctx.pick([50, 150], [50, 150, 300]):
+        comps = [rnd.choice(["a", "b", "src"]) for _ in range(depth)]
+        files = [(cps("/".join(comps[:d] + ["f.py"])), cps("00"), cps("C"), 1, meas(1)) for d in (depth, depth // 2, 0)]
+        out.append(("depth %d" % depth, base(files)))
+    return out
+
+
+def spec_summary(spec):
+    return {"root_len": len(spec["root"]), "files": len(spec["files"]), "repository": spec["repository"] is not None,
+            "longest_string": max([len(spec["root"])] + [max(len(f[0]), len(f[1]), len(f[2]), max([len(m[0]) for m in f[4]] or [0])) for f in spec["files"]]),
+            "measurements": sum(len(f[4]) for f in spec["files"])}
+
+
+def shrink_big(spec, failing, budget_s=8.0):
+    """halve the file list / the measurement lists while the failure stays, then the greedy `shrink_spec`, time-boxed"""
+    import time
+    t0 = time.time()
+
+    def timed(s):
+        if time.time() - t0 > budget_s:
+            raise TimeoutError
+        return failing(s)
+    cur = spec
+    progress = True
+    while progress and time.time() - t0 < budget_s:
+        progress = False
+        fs = cur["files"]
+        cands = []
+        if len(fs) > 4:
+            cands += [dict(cur, files=fs[:len(fs) // 2]), dict(cur, files=fs[len(fs) // 2:])]
+        for i, f in enumerate(fs[:3]):
+            if len(f[4]) > 4:
+                for half in (f[4][:len(f[4]) // 2], f[4][len(f[4]) // 2:]):
+                    cands.append(dict(cur, files=fs[:i] + [(f[0], f[1], f[2], f[3], half)] + fs[i + 1:]))
+        for c in cands:
+            try:
+                if timed(c):
+                    cur = c; progress = True
+                    break
+            except TimeoutError:
+                return cur
+            except Exception:   # noqa: BLE001
+                continue
+    if spec_size(cur) < 20000 and len(cur["files"]) <= 60:
+        cur = shrink_spec(cur, timed)
+    return cur
+
+
 # ------------------------------------------------------------------ oracle: the property on the real code
 
 def timestamp_line_split(doc, pretty):
@@ -401,9 +503,29 @@ def expected_value(d):
     return v
 
 
-def oracle_report(spec):
-    """-> list of failed clauses of the property for this report (empty = holds)"""
-    from codelimit.common.report.ReportReader import ReportReader
+def mutate_report(rep):
+    """what a program may do to a Report it has read: relabel it, move it to another repository, go on adding files"""
+    from codelimit.common.GithubRepository import GithubRepository
+    from codelimit.common.SourceFileEntry import SourceFileEntry
+    rep.uuid = str(rep.uuid) + "-modified"
+    rep.version = "0.0.0-modified"
+    rep.timestamp = "modified"
+    if rep.repository is None:
+        rep.repository = GithubRepository("probe-owner", "probe-name", "probe-branch")
+    else:
+        rep.repository.branch = "probe-branch"
+        rep.repository.owner = "probe-owner"
+    rep.codebase.root = str(rep.codebase.root) + "/modified"
+    rep.codebase.add_file(SourceFileEntry("zz-probe/extra.py", "00", "Probe", 77, []))
+    for e in list(rep.codebase.files.values())[:1]:
+        e.loc = 12345 if isinstance(e.loc, int) else 0
+    rep.codebase.aggregate()
+
+
+def oracle_report(spec, read_cfg=None, probes=True):
+    """-> list of failed clauses of the property for this report (empty = holds).
+    read_cfg: configuration of the process that reads the document back and re-writes it (the report is built and
+    written under the default configuration); probes: second read / second write in the same process"""
     bad = []
     try:
         rep = build_report(spec)
@@ -413,6 +535,20 @@ def oracle_report(spec):
     docs = {}
     for pretty in (True, False):
         docs[pretty] = write_real(rep, pretty)
+    if probes:
+        for pretty in (True, False):
+            if write_real(rep, pretty) != docs[pretty]:
+                bad.append("%s: writing the same report object a second time gives another document" % ("pretty" if pretty else "compact"))
+        if report_data(rep) != d0:
+            bad.append("writing the report modified it")
+    with h4.configured(**(read_cfg or {})):
+        bad += _oracle_read_side(d0, docs, probes)
+    return bad
+
+
+def _oracle_read_side(d0, docs, probes):
+    from codelimit.common.report.ReportReader import ReportReader
+    bad = []
     vals = {}
     for pretty, doc in docs.items():
         try:
@@ -455,6 +591,22 @@ def oracle_report(spec):
                 bad.append("%s: writing the re-read report does not reproduce the document (up to the timestamp)" % form)
         except (ValueError, AssertionError, IndexError):
             bad.append("%s: no timestamp line found" % form)
+        if probes:
+            # STATE PROBE: the caller modifies what it was given, then the same document is read again
+            try:
+                mutate_report(back)
+                back2 = ReportReader.from_json(doc)
+            except Exception as e:   # noqa: BLE001
+                bad.append("%s: second read of the same document raises %r" % (form, e))
+                continue
+            if back2 is back or back2.codebase is back.codebase:
+                bad.append("%s: the second read of a document returns the object (or codebase) of the first read" % form)
+            d2 = report_data(back2)
+            for f in ("version", "uuid", "root", "repository", "files", "totals", "tree"):
+                a, b = (d1[f], d2[f]) if f != "repository" else ((None if d1[f] is None else d1[f][:3]), (None if d2[f] is None else d2[f][:3]))
+                if a != b:
+                    bad.append("%s: %s of the second read of the same document differs from the first read (the first result was modified in between): %s -> %s"
+                               % (form, f, ascii(a)[:120], ascii(b)[:120]))
     return bad
 
 
@@ -686,8 +838,23 @@ def correspond(ctx):
         else:
             bad = oracle_report(spec)
             evals += 1
+            dist["second_reads"] = dist.get("second_reads", 0) + 2
             if bad:
                 fails.append({"input": {"stream": "report", "spec": spec}, "observed": bad, "required": "valid JSON in both forms, same value, lossless read-back, stable rewrite"})
+            # the same document read back by a process that is configured differently from the one that wrote it
+            crnd = ctx.rng("read-cfg", si)
+            paths = [from_cps(f[0]) for f in spec["files"]]
+            for label, kw in h4.config_variants([p for p in paths if "\n" not in p and "\x00" not in p], crnd, count=ctx.pick(3, 4)):
+                try:
+                    badc = oracle_report(spec, read_cfg=kw, probes=False)
+                except Exception as e:   # noqa: BLE001 - e.g. pathspec rejecting a pattern: not the report's business
+                    dist["configured_skipped"] = dist.get("configured_skipped", 0) + 1
+                    continue
+                evals += 1
+                dist["configured_reads"] = dist.get("configured_reads", 0) + 1
+                if badc:
+                    fails.append({"input": {"stream": "report-configured", "spec": spec, "read_cfg": kw, "cfg_label": label},
+                                  "observed": badc, "required": "the document alone determines what is read back, whatever the reading process is configured for"})
         for pretty in (True, False):
             doc = write_real(rep, pretty)
             dist["doc_chars"] += len(doc)
@@ -733,6 +900,22 @@ def correspond(ctx):
                 if val is not None:
                     for what, v2 in structural_faults(trnd, val, ctx.pick(8, 30)):
                         read_texts.append((what, json.dumps(v2), spec))
+    # ---- size ladders: the property directly (oracle incl. the second-read probe), failing inputs shrunk
+    dist["ladder"] = {}
+    for label, spec in ladder_specs(ctx):
+        evals += 1
+        try:
+            bad = oracle_report(spec)
+        except RecursionError:
+            dist["ladder"][label] = "skipped (recursion limit)"
+            continue
+        dist["ladder"][label] = "ok" if not bad else "FAILS"
+        if bad:
+            small = shrink_big(spec, lambda s: bool(oracle_report(s)))
+            fails.append({"input": {"stream": "report", "spec": small, "ladder": label, "shrunk_from": spec_summary(spec)},
+                          "observed": oracle_report(small) or bad, "required": "valid JSON in both forms, same value, lossless read-back, stable rewrite"})
+    if not h4.configuration_is_default():
+        dis.append({"stream": "configured", "input": {"stream": "configured"}, "model": "default configuration restored", "impl": "configuration left modified"})
     model = common.run_driver_sharded(write_reqs)
     for (spec, pretty, doc, is_pair), m in zip(write_meta, model):
         evals += 1
@@ -806,7 +989,11 @@ def correspond(ctx):
                 "%d random reports (codebase built by the real add_file/aggregate; depth <= 4 with shared folders; quotes, backslashes, controls, NUL, DEL, "
                 "non-ASCII, astral, lone surrogates in every string field; repository/version present or absent) x pretty/compact: writer text, "
                 "json.loads on the documents, on truncations (every offset for the first small ones, stratified otherwise), on character mutations and on "
-                "grammar-generated JSON-like texts; reader on the documents and on single structural faults; non-trivial = documents with >= 1 file and "
+                "grammar-generated JSON-like texts; reader on the documents and on single structural faults; every report's oracle includes a second read of "
+                "each document after the first result was modified and a second write of the same object; each report re-read under 3 (thorough 4) "
+                "configurations of the reading process (Configuration.repository / verbose / exclude patterns / all); size ladders through the oracle: "
+                "10^2, 10^3 (thorough ..10^5) files, 10^3, 10^5 (..10^6) characters in one string field, 10^2, 10^4 (..10^5) measurements in one file, "
+                "depth 50, 150 (300); non-trivial = documents with >= 1 file and "
                 "distinct accepted non-document texts" % dist["reports"],
         "samples": samples, "exhaustive": False, "distribution": dist,
         "disagreements": dis[:50], "oracle_failures": fails[:50],
@@ -856,23 +1043,26 @@ def search(ctx, hints):
     rnd = ctx.rng("search")
     specs = [h["spec"] for h in hints or [] if h and "spec" in h]
     specs += [gen_spec(rnd) for _ in range(ctx.pick(600, 3000))]
-    for spec in specs:
+    cfgs = [None, {"repository": h4.CFG_REPOSITORY}, {"repository": h4.CFG_REPOSITORY, "verbose": True, "exclude": ["*"]}]
+    for k, spec in enumerate(specs):
+        cfg = cfgs[k % len(cfgs)] if k >= len(specs) - ctx.pick(600, 3000) else None
         try:
-            bad = oracle_report(spec)
+            bad = oracle_report(spec, read_cfg=cfg)
         except Exception as e:   # noqa: BLE001
             bad = ["the writer/reader raised %r" % (e,)]
         if bad:
-            def failing(s):
+            def failing(s, cfg=cfg):
                 try:
-                    return bool(oracle_report(s))
+                    return bool(oracle_report(s, read_cfg=cfg))
                 except Exception:   # noqa: BLE001
                     return True
             small = shrink_spec(spec, failing)
             try:
-                why = oracle_report(small)
+                why = oracle_report(small, read_cfg=cfg)
             except Exception as e:   # noqa: BLE001
                 why = ["the writer/reader raised %r" % (e,)]
-            fails.append({"input": {"stream": "report", "spec": small}, "observed": why,
+            inp = {"stream": "report", "spec": small} if cfg is None else {"stream": "report-configured", "spec": small, "read_cfg": cfg}
+            fails.append({"input": inp, "observed": why,
                           "required": "valid JSON in both forms, same value, lossless read-back, stable rewrite"})
             if len(fails) >= 3:
                 break
@@ -891,6 +1081,16 @@ def _tuple_spec(spec):
 def replay(payload):
     inp = payload["input"]
     st = inp.get("stream")
+    if st == "report-configured":
+        spec = _tuple_spec(inp["spec"])
+        cfg = dict(inp["read_cfg"])
+        if cfg.get("repository") is not None:
+            cfg["repository"] = tuple(cfg["repository"])
+        bad = oracle_report(spec, read_cfg=cfg, probes=False)
+        print("document (compact): %s\nread back under the configuration %r" % (write_real(build_report(spec), False)[:600], cfg))
+        for b in bad:
+            print("  FAILS: " + b)
+        return not bad
     if st in ("report", "truncation"):
         spec = _tuple_spec(inp["spec"])
         if st == "truncation":
